@@ -320,7 +320,9 @@ def ephem_spec(draw):
     npts = draw(st.sampled_from([1, 1, 2, 3, 4, 5, 8, 12]))
     hyp = False
     el = draw(go.elements(elliptic=True, hyperbolic=hyp, emax_ell=0.8, rp_range=(1.03, 10.0), mwind=0.5))
-    steps = [0] + [draw(wint(1, 600 * 1000)) * 1000 for _ in range(npts - 1)]  # us, >= 1 ms apart
+    # us, >= 1 ms apart; one ephemeris in five spans days
+    span = 3 * 86400 * 1000 if draw(st.sampled_from(range(5))) == 0 else 600 * 1000
+    steps = [0] + [draw(wint(1, span)) * 1000 for _ in range(npts - 1)]
     nus = [draw(go.uniform(0, 2 * math.pi - 1e-9)) for _ in range(npts)]
     # 0..N covariances: none / exactly one / some / all
     mode = draw(st.sampled_from(["none", "none", "one", "some", "all"]))
